@@ -25,6 +25,8 @@ def programs(tier):
         crossable.append(_n(L, "L.astype('float64')", "astype-all", cols=tuple((c, "f") for c in L.names)))
         crossable.append(_n(L, "L.set_index('a', divisions=[-10, 0, 10]).reset_index()", "set_index-div", cols=(("a", "i"), ("b", "f"), ("c", "i")), index_ok=False, ordered=False))
         crossable.append(_n(L, "L.sort_values('a')", "sort_values", ordered=False) if nparts == 1 else None)
+        # the new index given as a separate series (data-dependent planning: outside the model, covered by the crash oracle)
+        crossable.append(_n(L, "L.set_index(L.c * 2)", "set_index-series-key", cols=(("a", "i"), ("b", "f"), ("c", "i")), index_ok=False, ordered=False))
         for mid in [m for m in crossable if m is not None]:
             for tag, p in predicates(mid, "Y"):
                 text = f"(lambda Y: Y[{p}])({mid.text})"
@@ -52,6 +54,8 @@ def programs(tier):
         preds = {
             "left-only": "M.c > 1", "right-only": "M.e > 1", "key": "M.a > 1", "left-suffixed": "M.b_x < 2", "right-suffixed": "M.b_y < 2",
             "both": "M.c > M.e", "left-null": "M.b_x.isna()", "right-null": "M.e.isna()", "and-split": "(M.c > 0) & (M.e < 2)", "ne-right": "M.e != 1",
+            # reductions over the join result inside the predicate: the value changes with the rows, so nothing may move
+            "vs-reduction": "M.c >= M.c.max() - 1", "vs-reduction-right": "M.e > M.e.min() + 0", "and-reduction": "(M.a > 0) & (M.c >= M.c.max() - 1)",
         }
         hows = ["inner", "left", "right", "outer"]
         for how in hows:
